@@ -65,7 +65,9 @@ where
                 });
             }
 
-            if pushed_len == 0 && stored_len == real_stored_len {
+            // A reset() leaves the page index changed in memory only: it still has to
+            // reach the page-index and data regions even though nothing is buffered.
+            if pushed_len == 0 && stored_len == real_stored_len && !pages.has_changes() {
                 return Ok(false);
             }
 
